@@ -16,6 +16,7 @@ type Layout interface {
 	OwnLineComment() string // "" or a `// …` / `/* … */` comment put on its own line before a statement
 	CommentIndent(cur int) int
 	TrailingComment() string        // "" or a comment appended to a statement's last line
+	HeadComment() string            // "" or a comment appended to a line that opens a block (after = -> then else with {)
 	IfOneLine() bool                // write an eligible if on one line
 	ArmBlockOnArrowLine() bool      // a multi-line arm body starts on the `->` line, aligned under its first token
 	ArmOffset(lo int) int           // column of the arms relative to `match` where they may go left of it (lo <= 0)
@@ -36,6 +37,7 @@ func (Canonical) TrailingSpaces() int            { return 0 }
 func (Canonical) OwnLineComment() string         { return "" }
 func (Canonical) CommentIndent(cur int) int      { return cur }
 func (Canonical) TrailingComment() string        { return "" }
+func (Canonical) HeadComment() string            { return "" }
 func (Canonical) IfOneLine() bool                { return false }
 func (Canonical) ArmBlockOnArrowLine() bool      { return false }
 func (Canonical) ArmOffset(lo int) int           { return 0 }
@@ -63,6 +65,14 @@ type Printer struct {
 
 func (p *Printer) line(indent int, s string) {
 	p.lines = append(p.lines, strings.Repeat(" ", indent)+s+strings.Repeat(" ", p.L.TrailingSpaces()))
+}
+
+// head prints a line that opens a block (its body follows on the next lines); a comment may follow it.
+func (p *Printer) head(indent int, s string) {
+	p.line(indent, s)
+	if c := p.L.HeadComment(); c != "" {
+		p.lines[len(p.lines)-1] = strings.TrimRight(p.lines[len(p.lines)-1], " ") + " " + c
+	}
 }
 
 func (p *Printer) blank() {
@@ -354,12 +364,12 @@ func (p *Printer) letLike(head string, e *Expr, indent int) {
 	if e.K == "lambda" && !CanInline(e) {
 		// let f = fun x ->
 		//   body
-		p.line(indent, head+" fun "+paramsSrc(e.Params)+" ->")
+		p.head(indent, head+" fun "+paramsSrc(e.Params)+" ->")
 		p.block(e.Body, indent+p.L.Indent())
 		return
 	}
 	if multi || p.L.RhsNextLine() {
-		p.line(indent, head)
+		p.head(indent, head)
 		in := indent + p.L.Indent()
 		if (e.K == "matchu" || e.K == "matchs") && e.Extra == 0 {
 			// the arms of a match that is a let's right-hand side on the next line may sit left of the
@@ -459,18 +469,18 @@ func (p *Printer) expr(e *Expr, indent int, prefix string) {
 			p.line(indent, prefix+s)
 			return
 		}
-		p.line(indent, prefix+"if "+Inline(e.Args[0], 0)+" then")
+		p.head(indent, prefix+"if "+Inline(e.Args[0], 0)+" then")
 		p.block(e.Then, indent+p.L.Indent())
 		for _, el := range e.Elifs {
-			p.line(indent, "elif "+Inline(el.Cond, 0)+" then")
+			p.head(indent, "elif "+Inline(el.Cond, 0)+" then")
 			p.block(el.Body, indent+p.L.Indent())
 		}
 		if e.Else != nil {
-			p.line(indent, "else")
+			p.head(indent, "else")
 			p.block(e.Else, indent+p.L.Indent())
 		}
 	case "matchu", "matchs":
-		p.line(indent, prefix+"match "+Inline(e.Args[0], 0)+" with")
+		p.head(indent, prefix+"match "+Inline(e.Args[0], 0)+" with")
 		ai := indent + p.L.CaseIndent()
 		if p.armFloor < 0 {
 			ai = indent + p.L.ArmOffset(p.armFloor)
@@ -538,7 +548,7 @@ func (p *Printer) arm(head string, body *Block, indent int) {
 		}
 		p.lines = p.lines[:start] // a blank or comment line came first: write it the ordinary way
 	}
-	p.line(indent, head)
+	p.head(indent, head)
 	p.block(body, indent+p.L.Indent())
 }
 
@@ -567,7 +577,7 @@ func (p *Printer) funcDecl(f *FuncDecl, indent int) {
 		p.trail()
 		return
 	}
-	p.line(indent, head)
+	p.head(indent, head)
 	p.block(b, indent+p.L.Indent())
 }
 
@@ -590,11 +600,12 @@ func (p *Printer) typeDecl(d *TypeDecl) {
 			p.line(0, kw+" "+name+" = {"+strings.Join(fs, "; ")+"}")
 			return
 		}
-		p.line(0, kw+" "+name+" = {")
+		p.head(0, kw+" "+name+" = {")
 		ind := p.L.Indent()
 		for _, f := range r.Fields {
-			p.blank()
+			p.lead(ind)
 			p.line(ind, f.Name+": "+f.T.Src(0)+";")
+			p.trail()
 		}
 		p.line(0, "}")
 		return
@@ -604,15 +615,16 @@ func (p *Printer) typeDecl(d *TypeDecl) {
 	if len(u.TParams) > 0 {
 		name += "<" + strings.Join(u.TParams, ", ") + ">"
 	}
-	p.line(0, kw+" "+name+" =")
+	p.head(0, kw+" "+name+" =")
 	ci := p.L.CaseIndent()
 	for _, c := range u.Cases {
-		p.blank()
+		p.lead(ci)
 		if c.Payload != nil {
 			p.line(ci, "| "+c.Name+" of "+c.Payload.Src(0))
 		} else {
 			p.line(ci, "| "+c.Name)
 		}
+		p.trail()
 	}
 }
 
